@@ -333,6 +333,291 @@ fn history_body(src: &mut Src, st: &mut Stats) -> CaseResult {
     Ok(())
 }
 
+/// Histories on a runtime built by the case itself: user functions declared with
+/// signatures (`CustomFunction`), a closure overriding a built-in, with or without the
+/// built-ins registered.  Expressions are compiled from that runtime, cloned, re-assembled
+/// through `Expression::new`, dropped and searched in generated order; every search must
+/// equal a closed-form model of the call (arity first, then parameter types, then the
+/// function's value) and every earlier result of the same pair.
+fn custom_history(src: &mut Src, st: &mut Stats, _env: &Env) -> CaseResult {
+    use jmespath::functions::{ArgumentType, CustomFunction, Signature};
+    use jmespath::{Context, Rcvar, Runtime, Variable};
+    let bare = src.chance(70);
+    let override_abs = src.chance(90);
+    let builtins_first = src.flip();
+    let mut rt = Runtime::new();
+    let num = |x: f64| Rcvar::new(Variable::Number(serde_json::Number::from_f64(x).unwrap()));
+    let register_custom = |rt: &mut Runtime| {
+        let add2 = move |a: &[Rcvar], _: &mut Context<'_>| -> Result<Rcvar, jmespath::JmespathError> {
+            // (called only after the declared signature was validated)
+            match (a.first().and_then(|x| x.as_number()), a.get(1).and_then(|x| x.as_number()), a.len()) {
+                (Some(x), Some(y), 2) => Ok(num(x + y)),
+                _ => Ok(Rcvar::new(Variable::String(format!("add2 was called with {} arguments although its signature says two numbers", a.len())))),
+            }
+        };
+        rt.register_function("add2", Box::new(CustomFunction::new(Signature::new(vec![ArgumentType::Number, ArgumentType::Number], None), Box::new(add2))));
+        let cat = |a: &[Rcvar], _: &mut Context<'_>| -> Result<Rcvar, jmespath::JmespathError> {
+            let parts: Vec<String> = a.iter().map(|x| x.as_string().cloned().unwrap_or_else(|| "<cat was handed a non-string>".to_string())).collect();
+            Ok(Rcvar::new(Variable::String(if parts.is_empty() { "<cat was called without arguments>".to_string() } else { parts.join("") })))
+        };
+        rt.register_function("cat", Box::new(CustomFunction::new(Signature::new(vec![ArgumentType::String], Some(ArgumentType::String)), Box::new(cat))));
+        let first_or = |a: &[Rcvar], _: &mut Context<'_>| -> Result<Rcvar, jmespath::JmespathError> {
+            match (a.first().and_then(|x| x.as_array()), a.get(1), a.len()) {
+                (Some(items), Some(d), 2) => Ok(items.first().cloned().unwrap_or_else(|| d.clone())),
+                _ => Ok(Rcvar::new(Variable::String(format!("first_or was called with {} arguments although its signature says (array, any)", a.len())))),
+            }
+        };
+        rt.register_function("first_or", Box::new(CustomFunction::new(Signature::new(vec![ArgumentType::Array, ArgumentType::Any], None), Box::new(first_or))));
+    };
+    if !bare && builtins_first {
+        rt.register_builtin_functions();
+    }
+    register_custom(&mut rt);
+    if override_abs {
+        rt.register_function("abs", Box::new(|a: &[Rcvar], _: &mut Context<'_>| Ok(Rcvar::new(Variable::String(format!("abs!{}", a.len()))))));
+    }
+    if !bare && !builtins_first {
+        // registering the built-ins afterwards replaces the override of `abs`
+        rt.register_builtin_functions();
+    }
+    let abs_is_override = override_abs && (bare || builtins_first);
+    // the document
+    let (a, b) = (src.range(-50, 50), src.range(-50, 50));
+    let (s, t) = (src.pick(&["x", "", "é", "a b"]).to_string(), src.pick(&["y", "zz", "日本"]).to_string());
+    let xs: Vec<i64> = (0..src.below(4)).map(|_| src.range(-9, 9)).collect();
+    let doc_j = J::Obj(
+        [
+            ("a".to_string(), J::int(a)),
+            ("b".to_string(), J::int(b)),
+            ("s".to_string(), J::s(&s)),
+            ("t".to_string(), J::s(&t)),
+            ("xs".to_string(), J::Arr(xs.iter().map(|x| J::int(*x)).collect())),
+            ("e".to_string(), J::Arr(vec![])),
+        ]
+        .into_iter()
+        .collect(),
+    );
+    let doc_text = doc_j.to_json();
+    let doc = Rcvar::new(Variable::from_json(&doc_text).unwrap());
+    let value: serde_json::Value = serde_json::from_str(&doc_text).unwrap();
+    // atoms and their values
+    let atom_val = |atom: &str| -> J {
+        match atom {
+            "a" => J::int(a),
+            "b" => J::int(b),
+            "s" => J::s(&s),
+            "t" => J::s(&t),
+            "xs" => J::Arr(xs.iter().map(|x| J::int(*x)).collect()),
+            "e" => J::Arr(vec![]),
+            "`3`" => J::int(3),
+            "'lit'" => J::s("lit"),
+            _ => J::Null,
+        }
+    };
+    let atoms = ["a", "b", "s", "t", "xs", "e", "`3`", "'lit'", "missing"];
+    // one call and its modelled outcome: Ok(value) or Err(class)
+    let model_call = |f: &str, args: &[&str]| -> Result<J, &'static str> {
+        let vals: Vec<J> = args.iter().map(|x| atom_val(x)).collect();
+        let is_num = |j: &J| matches!(j, J::Num(_));
+        let is_str = |j: &J| matches!(j, J::Str(_));
+        let arity = |lo: usize, hi: Option<usize>| -> Result<(), &'static str> {
+            if vals.len() < lo {
+                Err("NotEnoughArguments")
+            } else if hi.map_or(false, |h| vals.len() > h) {
+                Err("TooManyArguments")
+            } else {
+                Ok(())
+            }
+        };
+        match f {
+            "add2" => {
+                arity(2, Some(2))?;
+                if !vals.iter().all(is_num) {
+                    return Err("InvalidType");
+                }
+                let n = |j: &J| if let J::Num(crate::model::N::Int(i)) = j { *i as i64 } else { 0 };
+                Ok(J::int(n(&vals[0]) + n(&vals[1])))
+            }
+            "cat" => {
+                arity(1, None)?;
+                if !vals.iter().all(is_str) {
+                    return Err("InvalidType");
+                }
+                Ok(J::Str(vals.iter().map(|j| if let J::Str(x) = j { x.clone() } else { String::new() }).collect::<Vec<_>>().join("")))
+            }
+            "first_or" => {
+                arity(2, Some(2))?;
+                match &vals[0] {
+                    J::Arr(items) => Ok(items.first().cloned().unwrap_or_else(|| vals[1].clone())),
+                    _ => Err("InvalidType"),
+                }
+            }
+            "abs" if abs_is_override => Ok(J::Str(format!("abs!{}", vals.len()))),
+            "abs" if bare => Err("UnknownFunction"),
+            "abs" => {
+                arity(1, Some(1))?;
+                match &vals[0] {
+                    J::Num(crate::model::N::Int(i)) => Ok(J::int(i.abs() as i64)),
+                    _ => Err("InvalidType"),
+                }
+            }
+            _ => Err("UnknownFunction"),
+        }
+    };
+    // the pool: (text, modelled outcome)
+    let mut exprs: Vec<(String, Result<J, &'static str>)> = vec![];
+    let gen_call = |src: &mut Src| -> (String, Result<J, &'static str>) {
+        let f = *src.pick(&["add2", "add2", "cat", "first_or", "abs", "nope"]);
+        let n = src.below(4);
+        let args: Vec<&str> = (0..n)
+            .map(|_| {
+                // mostly arguments of the declared type
+                if src.chance(170) {
+                    match f {
+                        "add2" | "abs" => *src.pick(&["a", "b", "`3`"]),
+                        "cat" => *src.pick(&["s", "t", "'lit'"]),
+                        _ => *src.pick(&["xs", "e", "a", "s"]),
+                    }
+                } else {
+                    *src.pick(&atoms)
+                }
+            })
+            .collect();
+        (format!("{}({})", f, args.join(", ")), model_call(f, &args))
+    };
+    for _ in 0..(2 + src.below(5)) {
+        let (t1, m1) = gen_call(src);
+        let item = match src.below(6) {
+            0 => {
+                let (t2, m2) = gen_call(src);
+                let m = match (m1, m2) {
+                    (Err(c), _) => Err(c),
+                    (_, Err(c)) => Err(c),
+                    (Ok(x), Ok(y)) => Ok(J::Arr(vec![x, y])),
+                };
+                (format!("[{}, {}]", t1, t2), m)
+            }
+            1 => {
+                let m = if xs.is_empty() { Ok(J::Arr(vec![])) } else { Ok(J::Arr(xs.iter().map(|x| J::int(*x + 1)).collect())) };
+                ("xs[*].add2(@, `1`)".to_string(), m)
+            }
+            2 => {
+                // the same function called with different argument counts at two call sites
+                let f = *src.pick(&["add2", "first_or", "cat"]);
+                let (few, full): (Vec<&str>, Vec<&str>) = match f {
+                    "add2" => (vec!["a"], vec!["a", "b"]),
+                    "first_or" => (vec!["xs"], vec!["xs", "s"]),
+                    _ => (vec![], vec!["s", "t"]),
+                };
+                let (x, y) = if src.flip() { (few, full) } else { (full, few) };
+                let m = match (model_call(f, &x), model_call(f, &y)) {
+                    (Err(c), _) => Err(c),
+                    (_, Err(c)) => Err(c),
+                    (Ok(p), Ok(q)) => Ok(J::Arr(vec![p, q])),
+                };
+                (format!("[{}({}), {}({})]", f, x.join(", "), f, y.join(", ")), m)
+            }
+            _ => (t1, m1),
+        };
+        exprs.push(item);
+    }
+    let case = |log: &Vec<String>| json!({"runtime": {"builtins": !bare, "builtins_registered_first": builtins_first, "abs_overridden_by_closure": override_abs}, "history": log, "expressions": exprs.iter().map(|e| e.0.clone()).collect::<Vec<_>>(), "document": doc_text});
+    let mut log: Vec<String> = vec![];
+    let mut handles: Vec<(usize, jmespath::Expression<'_>)> = vec![];
+    let mut table: std::collections::HashMap<usize, Outcome> = Default::default();
+    let mut repeats = 0;
+    st.eval();
+    for _ in 0..(6 + src.below(40)) {
+        match src.weighted(&[4, 3, 2, 1, 12]) {
+            0 => {
+                let i = src.below(exprs.len());
+                log.push(format!("compile(e{})", i));
+                match rt.compile(&exprs[i].0) {
+                    Ok(c) => handles.push((i, c)),
+                    Err(e) => return Err(Failure::new("custom-history", "compile-fails", format!("{:?} does not compile on the custom runtime: {}", exprs[i].0, e), case(&log))),
+                }
+            }
+            1 => {
+                if !handles.is_empty() {
+                    let h = src.below(handles.len());
+                    log.push(format!("clone(h{})", h));
+                    let c = handles[h].clone();
+                    handles.push(c);
+                }
+            }
+            2 => {
+                if !handles.is_empty() {
+                    let h = src.below(handles.len());
+                    log.push(format!("Expression::new(text and tree of h{}, the same runtime)", h));
+                    let e = jmespath::Expression::new(handles[h].1.as_str(), handles[h].1.as_ast().clone(), &rt);
+                    handles.push((handles[h].0, e));
+                }
+            }
+            3 => {
+                if !handles.is_empty() {
+                    let h = src.below(handles.len());
+                    log.push(format!("drop(h{})", h));
+                    handles.remove(h);
+                }
+            }
+            _ => {
+                if handles.is_empty() {
+                    continue;
+                }
+                let h = src.below(handles.len());
+                let route = src.below(3);
+                let (i, ex) = (handles[h].0, &handles[h].1);
+                log.push(format!("search(h{}=e{}, route{})", h, i, route));
+                let r = catch(std::panic::AssertUnwindSafe(|| match route {
+                    0 => ex.search(&doc),
+                    1 => ex.search(&value),
+                    _ => ex.search((*doc).clone()),
+                }));
+                let (out, class) = match r {
+                    Err(p) => return Err(Failure::new("custom-history", "panic", p, case(&log))),
+                    Ok(Ok(v)) => (Outcome::Val(var_to_j(&v)), None),
+                    Ok(Err(e)) => {
+                        let c = classify(&e);
+                        (Outcome::Err(format!("{} off={} line={} col={}", c.detail, c.offset, c.line, c.column)), Some(c.class))
+                    }
+                };
+                let agrees = match (&exprs[i].1, &out) {
+                    (Ok(w), Outcome::Val(g)) => w.approx_eq(g, 1e-9),
+                    (Err(c), Outcome::Err(_)) => class.as_deref() == Some(*c),
+                    _ => false,
+                };
+                if !agrees {
+                    return Err(Failure::new(
+                        "custom-history",
+                        "search-result-wrong",
+                        format!("search of {:?} gave {} but the model of the registered functions gives {}", exprs[i].0, show(&out), match &exprs[i].1 { Ok(w) => w.to_json(), Err(c) => format!("error {}", c) }),
+                        case(&log),
+                    ));
+                }
+                match table.get(&i) {
+                    Some(prev) => {
+                        repeats += 1;
+                        if !outcome_eq(prev, &out) {
+                            return Err(Failure::new("custom-history", "search-depends-on-history", format!("search of {:?} gave {} earlier and {} now", exprs[i].0, show(prev), show(&out)), case(&log)));
+                        }
+                    }
+                    None => {
+                        table.insert(i, out);
+                    }
+                }
+            }
+        }
+    }
+    if doc.to_string() != Variable::from_json(&doc_text).unwrap().to_string() {
+        return Err(Failure::new("custom-history", "shared-document-changed", "the document changed".into(), case(&log)));
+    }
+    st.class(if bare { "custom-history:bare-runtime" } else { "custom-history:with-builtins" });
+    if repeats > 0 && st.nontrivial(&format!("{:?}{}", log, doc_text)) {
+        st.sample(|| json!({"history": log, "expressions": exprs.iter().map(|e| e.0.clone()).collect::<Vec<_>>()}));
+    }
+    Ok(())
+}
+
 fn hex(data: &[u8]) -> String {
     data.iter().map(|b| format!("{:02x}", b)).collect()
 }
@@ -604,6 +889,7 @@ pub fn property() -> Property {
         subs: vec![
             Sub::Bytes(BytesSub { name: "history", f: history, max_len: 4000, quick: Budget { threads: 8, cases: 1500 }, thorough: Budget { threads: 16, cases: 60_000 }, keep_unreproducible: true }),
             Sub::Bytes(BytesSub { name: "long-history", f: long_history, max_len: 12000, quick: Budget { threads: 8, cases: 30 }, thorough: Budget { threads: 16, cases: 1500 }, keep_unreproducible: true }),
+            Sub::Bytes(BytesSub { name: "custom-history", f: custom_history, max_len: 1500, quick: Budget { threads: 4, cases: 1500 }, thorough: Budget { threads: 16, cases: 40_000 }, keep_unreproducible: false }),
             Sub::Custom(CustomSub { name: "sequence", run: no_run, replay: replay_sequence }),
         ],
     }
